@@ -110,7 +110,7 @@ func MeasureClockOffsetSCION(ctx context.Context, log *slog.Logger,
 	nsps := 0
 	for i, c := range ntpcs {
 		pf := c.InterleavedModePath()
-		if pf != "" {
+		if c.InInterleavedMode() {
 			for j := range len(ps) {
 				if p := ps[j]; snet.Fingerprint(p).String() == pf {
 					ps[j] = ps[len(ps)-1]
